@@ -27,7 +27,7 @@ pub static PROP: PropDef = PropDef {
         "compared: exactly what the statement lists; the default scheme h3 fills in when the caller supplied none, Version and the sensitive flag are ignored",
     ],
     tape_len: 700,
-    random_cases: |t| t.pick(40_000, 2_000_000),
+    random_cases: |t| t.pick(160_000, 4_000_000),
     run_tape,
     exhaustive: None,
     run_direct: None,
